@@ -21,7 +21,7 @@ func init() {
 		Rule: "inputs: (1) exhaustive table orphans 1–4 × widows 1–4 × paragraph length 1–8 × room 0–8 lines after a leading block; (2) exhaustive table of break-after × break-before value pairs (10 × 10) in four nesting variants at a natural page end; (3) exhaustive table of vertical padding/border arrangements (8 arrangements of a decorated box, paragraph or fixed-height block between two blocks × 4 border/padding splits × 22 page heights 40..124px in steps of 4, so that the page bottom falls on every 4px of the decorated block); (4) random flows of 2–10 items, up to ~25 blocks (fixed-height empty blocks, Ahem paragraphs of 1–9 one-word lines with explicit px line-height, one level of nesting; zero vertical margins; in 35% of the documents boxes, paragraphs and fixed-height blocks carry top and/or bottom padding and borders of 4–12px (box-decoration-break: slice; bottom ones on fixed-height blocks only in table 3); 3% of the documents on pages lower than a line, 4% on A4 pages) with break-before/after/inside, orphans, widows, page names, and 0–6 @page rules (:first/:left/:right/:blank/named/:nth(), author and user origin, !important) setting size, margins, padding, page counters and an @bottom-center counter box; in 30% of the random documents 70% of the @page margin / padding values are written as percentages (40%) or in pt, pc, mm, cm, in, Q, em, or auto for margins (30%) instead of px, and 30% of the sizes in pt / pc; (5) exhaustive table of the page-box margin / padding value syntax: each of the 8 longhands and the margin / padding shorthands with 1–4 values × the units px, pt, pc, mm, cm, in, Q, em, %, and a mixed form (auto margins, percentages next to lengths) × a portrait, a landscape and a square sheet (percentages of top/bottom refer to the sheet height, of left/right to its width); (6) exhaustive table of the page-box dimensions: width, height or both declared in px, %, pt or auto × each of the two margins of the axis as 0, a length, a percentage, auto or undeclared (5 × 5) × a portrait and a landscape sheet, with page padding; and in 12% of the random documents (drawn last) the @page rules also declare width and / or height of the page box (px, a percentage of the sheet, or auto; sometimes !important) and 35% of the margin values are auto, so that the cascade decides page by page between auto dimension, centred, one auto margin and over-constrained. " +
 			"A case is non-trivial when the laid-out document has at least two pages and at least one page end (forced or unforced) was decided by the break monitor; distinct = distinct input.",
 		N: func(tier string) int {
-			return nTables + nRandom(tier) + nUnit + nDim
+			return nTables + nRandom(tier) + nUnit + nDim + nBlank
 		},
 		Gen:   genCase,
 		Check: check,
@@ -80,17 +80,22 @@ func init() {
 				// only margin-left/top auto, only margin-right/bottom auto — and among those the ones where
 				// the opposite margin is not 0, the only place where forgetting it shows —, no auto margin
 				// (over-constrained)
-				"kind_dim-table":                             nDim,
-				"docs_page_box_dimensions":                   500 * m,
-				"pages_declared_width":                       1500 * m,
-				"pages_declared_height":                      1800 * m,
-				"pages_declared_dimension_percentage":        1000 * m,
-				"page_axes_both_margins_auto":                700 * m,
-				"page_axes_first_margin_auto":                300 * m,
-				"page_axes_second_margin_auto":               350 * m,
-				"page_axes_second_margin_auto_first_nonzero": 300 * m,
-				"page_axes_one_margin_auto_other_nonzero":    550 * m,
-				"page_axes_over_constrained":                 1800 * m,
+				"kind_dim-table": nDim,
+				// blank pages x named pages: the table is complete; blank pages followed by content with a
+				// page name, and those where the @page rules of that name would change the page
+				"kind_blank-table":                                      nBlank,
+				"blank_pages_before_named_content":                      250 * m,
+				"blank_pages_where_the_next_name_would_change_the_page": 150 * m,
+				"docs_page_box_dimensions":                              500 * m,
+				"pages_declared_width":                                  1500 * m,
+				"pages_declared_height":                                 1800 * m,
+				"pages_declared_dimension_percentage":                   1000 * m,
+				"page_axes_both_margins_auto":                           700 * m,
+				"page_axes_first_margin_auto":                           300 * m,
+				"page_axes_second_margin_auto":                          350 * m,
+				"page_axes_second_margin_auto_first_nonzero":            300 * m,
+				"page_axes_one_margin_auto_other_nonzero":               550 * m,
+				"page_axes_over_constrained":                            1800 * m,
 			}
 		},
 		Assumptions: []string{
@@ -101,7 +106,8 @@ func init() {
 			"css-page-3 §5.3 (page-box page rule calculations), per axis, margin + padding + width|height + padding + margin = sheet size: with an auto dimension auto margins are 0 and the dimension follows; with a declared dimension two auto margins are equal, a single auto margin takes the rest (it may be negative), and without auto margin every value is used as declared (over-constrained: the page box then does not coincide with the sheet); a percentage width / height refers to the sheet width / height; min-/max-width/height and borders of the page box are not generated",
 			"open finding F-C12-page-bottom-float32-rounding: with a fractional page bottom a block that must be split on the page is sometimes moved whole to the next page (the float32 sum y + (pageBottom − y) rounds above pageBottom and overflowsPage has no effective fudge factor); recognised only when that float32 arithmetic, redone on the observed positions, does round above the page bottom, and reported as known",
 			"Ahem metrics: one 8-glyph word per line in a body of width 8em, explicit px line-height, so every line box is exactly line-height tall",
-			"where the specifications leave a choice (weight of :nth(); page name of a blank page; orphans counted per fragment or per box; which of two nested break-after sides wins; whether counter-reset:page suppresses the automatic increment) every reading is accepted",
+			"where the specifications leave a choice (weight of :nth(); orphans counted per fragment or per box; which of two nested break-after sides wins; whether counter-reset:page suppresses the automatic increment) every reading is accepted",
+			"a blank page has no page name (css-page-3: a named page is a page on which an element with that `page` value is displayed; a blank page displays none): it takes the unnamed, :blank, side, :first and :nth() rules, never `@page <name>` rules — WeasyPrint's and webrender's reading",
 			"a forced side on break-before of the first block of the document (propagation to the root) is not generated",
 		},
 		Batch: 250,
@@ -325,8 +331,8 @@ func check(raw json.RawMessage) fw.Result {
 			facts[i].Name = pt.Name
 			continue
 		}
-		if pt.Index != i || pt.First != f.First || pt.Side != f.Side || pt.Blank != f.Blank || (!f.Blank && pt.Name != f.Name) {
-			res.Fail("page-type", sprintf("page %d has page type %+v; expected index %d first %v side %s blank %v name %q (sides alternate from the first page; a page is blank iff it has no content; its name is the `page` value of its first content)", i+1, pt, i, f.First, f.Side, f.Blank, f.Name))
+		if pt.Index != i || pt.First != f.First || pt.Side != f.Side || pt.Blank != f.Blank || pt.Name != f.Name {
+			res.Fail("page-type", sprintf("page %d has page type %+v; expected index %d first %v side %s blank %v name %q (sides alternate from the first page; a page is blank iff it has no content; its name is the `page` value of its first content, a blank page has none)", i+1, pt, i, f.First, f.Side, f.Blank, f.Name))
 			return res
 		}
 	}
@@ -342,22 +348,27 @@ func check(raw json.RawMessage) fw.Result {
 	// ---- (a) geometry against the reference cascade
 	geoms := make([][]pageGeom, np)
 	for i, p := range pages {
-		var blankNames []string
+		gs := expectedGeoms(in.Rules, facts[i])
 		if facts[i].Blank {
-			for j := i - 1; j >= 0; j-- {
-				if !facts[j].Blank {
-					blankNames = append(blankNames, facts[j].Name)
-					break
-				}
-			}
+			// evidence: blank pages followed by content with a page name, and among them those on
+			// which the @page rules of that name would have given another page (the blank page is
+			// unnamed: those rules must not apply to it)
 			for j := i + 1; j < np; j++ {
-				if !facts[j].Blank {
-					blankNames = append(blankNames, facts[j].Name)
-					break
+				if facts[j].Blank {
+					continue
 				}
+				if nm := facts[j].Name; nm != "" {
+					res.Count("blank_pages_before_named_content", 1)
+					ff := facts[i]
+					ff.Name = nm
+					alt := cascadePage(in.Rules, ff, 0)
+					if geomFrom(alt) != geomFrom(cascadePage(in.Rules, facts[i], 0)) {
+						res.Count("blank_pages_where_the_next_name_would_change_the_page", 1)
+					}
+				}
+				break
 			}
 		}
-		gs := expectedGeoms(in.Rules, facts[i], blankNames)
 		geoms[i] = gs
 		got := [10]float64{
 			float64(p.MarginTop.V()), float64(p.MarginRight.V()), float64(p.MarginBottom.V()), float64(p.MarginLeft.V()),
